@@ -9,7 +9,7 @@ import itertools
 import time
 from fractions import Fraction
 import z3
-from .terms import Term, Mono, is_sym, OutOfSubset, CONJ, SQRT, ABS
+from .terms import Term, Mono, is_sym, OutOfSubset, CONJ, SQRT, ABS, R32
 
 QUERY_TIMEOUT_MS = 20000
 STATS = {'queries': 0, 'solver_s': 0.0, 'unknown': 0}
@@ -552,6 +552,13 @@ class Evaluator(object):
                 return args[0].conjugate() if isinstance(args[0], CFrac) else args[0]
             if e.decl().eq(ABS):
                 return abs(args[0])
+            if e.decl().eq(R32):
+                import struct
+                a0 = args[0]
+                try:
+                    return Fraction(struct.unpack('f', struct.pack('f', float(a0)))[0])
+                except Exception:
+                    return a0
             return self._uf(e.decl().name(), args)
         if k == z3.Z3_OP_ADD:
             return sum(self.ev(c) for c in ch)
